@@ -13,8 +13,8 @@ from harness.checks import c03
 from harness.common import Check, chunks, pmap, tmap, NPROC
 
 TIERS = {"quick": {"ASSGN2": (7, 30, 60, 40), "XMLISH": (6, 26, 50, 20), "NULLABLE": (6, 14, 40, 10), "NUM": (6, 16, 40, 12)},
-         "thorough": {"ASSGN2": (8, 40, 250, 200), "XMLISH": (7, 34, 200, 100), "NULLABLE": (8, 20, 100, 40), "NUM": (7, 20, 150, 60),
-                      "CSVISH": (7, 22, 120, 40), "AMBIG": (6, 16, 60, 15)}}
+         "thorough": {"ASSGN2": (8, 40, 100, 80), "XMLISH": (7, 34, 80, 40), "NULLABLE": (8, 20, 60, 25), "NUM": (7, 20, 60, 30),
+                      "CSVISH": (7, 22, 60, 20), "AMBIG": (6, 16, 40, 10)}}
 RW1 = [("neg", "neg"), ("nnf", "same"), ("nnf-neg", "neg"), ("dnf", "same"), ("dnf-neg", "neg"), ("unique", "same")]
 PID = "C09"
 MODULE = "MC_C09"
